@@ -70,6 +70,44 @@ def raised_in_repo(e: BaseException) -> bool:
     return False
 
 
+class Watchdog:
+    """A correspondence stream that neither finishes nor runs out of its own budget: the implementation hangs or eats memory
+    on inputs the unchanged tree handles within the stream's budget.  That is a correspondence that no longer checks — reported
+    through the violation protocol (no failing input: the run never came back) instead of being left to an external kill.
+    Limits are far above anything the unchanged tree needs (streams stop by themselves when their budget is used up)."""
+
+    def __init__(self, prop: str, tier: str, seconds: float, rss_gb: float):
+        import threading
+        self.prop, self.tier, self.seconds, self.rss_gb = prop, tier, seconds, rss_gb
+        self.stream = "-"
+        self.t0 = time.time()
+        self.stop = threading.Event()
+        self.thread = threading.Thread(target=self.run, daemon=True)
+
+    @staticmethod
+    def rss_gb_now() -> float:
+        try:
+            with open("/proc/self/statm") as f:
+                return int(f.read().split()[1]) * os.sysconf("SC_PAGE_SIZE") / 2 ** 30
+        except Exception:       # noqa: BLE001
+            return 0.0
+
+    def run(self):
+        while not self.stop.wait(1.0):
+            el, rss = time.time() - self.t0, self.rss_gb_now()
+            if el > self.seconds or rss > self.rss_gb:
+                why = (f"stream {self.stream} did not come back within {int(self.seconds)} s" if el > self.seconds else
+                       f"stream {self.stream} grew to {rss:.1f} GB of resident memory")
+                path = write_replay(self.prop, {"property": self.prop, "seed": SEED, "tier": self.tier,
+                                                "what": "the property is no longer shown to hold: " + why + " — the implementation hangs or "
+                                                        "exhausts memory on inputs the unchanged tree handles within the stream's budget; no "
+                                                        "failing input could be extracted because the call never returned",
+                                                "correspondence_streams": [self.stream]})
+                print("correspondence disagreement:", why, flush=True)
+                print(f"VIOLATION property={self.prop} replay={path.relative_to(OUT)} no-failing-input-found", flush=True)
+                os._exit(1)
+
+
 OUT = Path(os.environ.get("VERIF_OUT") or VERIF)      # development: redirect evidence/ and replays/ elsewhere
 
 
@@ -132,8 +170,12 @@ def main() -> int:
     infra_errors = []
     crashes: list[dict] = []
     streams = spec["streams"]
+    dog = Watchdog(prop, args.tier, seconds=float(os.environ.get("VERIF_HARD_LIMIT") or (15 * total + 900)),
+                   rss_gb=float(os.environ.get("VERIF_RSS_LIMIT_GB") or 12))
+    dog.thread.start()
     for modname, arg in streams:
         budget = Budget(total / max(1, len(streams)))
+        dog.stream = f"{modname}/{arg}"
         try:
             mod = importlib.import_module(modname)
             r = mod.run(args.tier, budget, common.rng(f"{prop}:{modname}:{arg}"), arg)
@@ -151,6 +193,7 @@ def main() -> int:
             else:
                 infra_errors.append(f"{modname}: {type(e).__name__}: {e}\n{traceback.format_exc()[-1500:]}")
 
+    dog.stop.set()
     interp = None
     if args.tier == "thorough" and not args.skip_lean and common.DRIVER_SAMPLES:
         try:
